@@ -23,7 +23,7 @@ for d in $GL; do
   fi
   for chk in $order; do
     [ -n "$FAST" ] && [ -n "$by" ] && break
-    out=$(VERIF_DIR=$V VERIF_REPO=$D $V/bin/vcheck run $chk 2>&1); rc=$?
+    out=$(VERIF_DIR=$V VERIF_REPO=$D VERIF_EVIDENCE_DIR=$D/.evidence $V/bin/vcheck run $chk 2>&1); rc=$?
     if echo "$out" | grep -q "^VIOLATION property=$chk"; then
       by="$by $chk($(echo "$out" | grep -m1 '  key:' | sed 's/  key: //' | cut -c1-70))"
     elif [ $rc -ne 0 ]; then
